@@ -121,7 +121,7 @@ def step(adapter, graph, cands, akey):
                     "differences": (problems[0] if problems else ["no edge"])[:12]})
 
 
-def cover(graph: Graph, adapter_factory, *, seed=0, max_path=80, known=None, budget_s=None, stop_after=5):
+def cover(graph: Graph, adapter_factory, *, seed=0, max_path=80, known=None, budget_s=None, stop_after=5, collect=None, only=None):
     """Exercise every (state, action) pair on real objects.  Returns (stats, violations, known_hits,
     known_gone, samples).  The replay tracks the SET of model states compatible with everything
     observed so far; a step is a violation only if no candidate state has an edge that explains the
@@ -130,6 +130,8 @@ def cover(graph: Graph, adapter_factory, *, seed=0, max_path=80, known=None, bud
     code has left the model), a match means the finding is gone."""
     rnd = random.Random(seed)
     todo = {n: set(acts) for n, acts in graph.out.items() if acts}       # node -> untraversed action keys
+    if only is not None:                                                 # this run is responsible for a share of the pairs
+        todo = {n: s2 for n, s2 in ((n, {a for a in acts if only(n, a)}) for n, acts in todo.items()) if s2}
     total_pairs = sum(len(v) for v in todo.values())
     left = total_pairs
     kn = {}                                                              # (node, akey) -> finding id (lazy)
@@ -147,6 +149,8 @@ def cover(graph: Graph, adapter_factory, *, seed=0, max_path=80, known=None, bud
         if s_ and a in s_:
             s_.discard(a)
             left -= 1
+            if collect is not None:
+                collect.add((n, a))
             if not s_:
                 del todo[n]
             return True
@@ -201,6 +205,8 @@ def cover(graph: Graph, adapter_factory, *, seed=0, max_path=80, known=None, bud
                     if fid:
                         known_gone.add(fid)
                     for n, e in oks:
+                        if collect is not None:
+                            collect.add((n, akey))
                         if mark(n, akey):
                             progressed = True
                             matched += 1
@@ -218,6 +224,52 @@ def cover(graph: Graph, adapter_factory, *, seed=0, max_path=80, known=None, bud
     stats["edges_matched"] = matched
     stats["unreached_pairs"] = left
     return stats, violations, known_hits, known_gone, samples
+
+
+_PAR = None
+
+
+def _par_one(i):
+    graph, factory, seed, kw, index, nproc = _PAR
+    got = set()
+    stats, viol, kh, kg, samples = cover(graph, factory, seed=seed * 1000 + i, collect=got,
+                                         only=lambda n, a: index[(n, a)] % nproc == i, **kw)
+    return stats, viol, kh, sorted(kg), samples, sorted(index[p] for p in got)
+
+
+def cover_parallel(graph: Graph, adapter_factory, *, seed=0, nproc=6, **kw):
+    """Several independent `cover` runs (different seeds, same wall-clock budget) in forked processes; the union of the
+    pairs they exercised is reported.  Same return shape as `cover`."""
+    global _PAR
+    import multiprocessing as mp
+    pairs = sorted((n, a) for n, acts in graph.out.items() for a in acts)
+    index = {p: i for i, p in enumerate(pairs)}
+    _PAR = (graph, adapter_factory, seed, kw, index, nproc)
+    try:
+        with mp.get_context("fork").Pool(nproc) as pool:
+            res = pool.map(_par_one, range(nproc))
+    finally:
+        _PAR = None
+    covered = set()
+    stats = {"pairs": len(pairs), "edges": graph.nedges, "nodes": len(graph.nodes), "paths": 0, "steps": 0, "edges_matched": 0,
+             "workers": nproc}
+    viol, seen, khits, kgone, samples = [], set(), {}, set(), []
+    for st, v, kh, kg, sm, got in res:
+        covered.update(got)
+        for k in ("paths", "steps", "edges_matched"):
+            stats[k] += st[k]
+        for x in v:
+            sig = json.dumps([x.get("action"), x.get("differences")], sort_keys=True, default=str)
+            if sig not in seen:
+                seen.add(sig)
+                viol.append(x)
+        for k, x in kh.items():
+            khits.setdefault(k, x)
+        kgone.update(kg)
+        samples += sm[:1]
+    stats["pairs_exercised"] = len(covered)
+    stats["unreached_pairs"] = len(pairs) - len(covered)
+    return stats, viol, khits, kgone, samples[:3]
 
 
 def _reach(graph, node, todo, pred=None):
